@@ -32,11 +32,12 @@ def setup():
     from . import engine
     hs = {}
     for prop in MODEL_PROPS:
-        for machines, kw, nq, nt, cfgs in checks.PROFILES[prop] + checks.gen_profiles(prop, 'quick', 1):
+        for p in checks.PROFILES[prop] + checks.gen_profiles(prop, 'quick', 1):
+            machines, kw, nq, nt, cfgs, sw = tuple(p) + (0,) * (6 - len(p))
             for m in machines:
-                key = (m, tuple(cfgs) if cfgs else None)
+                key = (m, tuple(cfgs) if cfgs else None, sw)
                 if key not in hs:
-                    hs[key] = engine.Harness(m, cfgs)
+                    hs[key] = engine.Harness(m, cfgs, switch=sw)
     errs = engine.build_harnesses(list(hs.values()))
     for fn in SETUP:
         errs += fn() or []
